@@ -4,10 +4,14 @@
 -/
 import PasfmtModel.Model.Mls
 import PasfmtModel.Proofs.RulesSim
+import PasfmtModel.Proofs.MlsMore
 
 namespace Pasfmt
 
-def NoNl (l : Bytes) : Prop := ∀ b ∈ l, isNlCr b = false
+-- `NoNl` (no `\n`, no `\r`) is the definition of `Proofs/LinesCustom.lean` (the same text was declared here a second
+-- time); this file now sits above `Proofs/MlsMore.lean`, so that both can be imported together
+-- (`Proofs/CrlfPremise.lean`).  `trimNlCr_piece_lf` below was `trimNlCr_piece`, a name `Proofs/LinesCustom.lean` uses
+-- for another statement.
 
 theorem NoNl.nil : NoNl [] := by intro b hb; simp at hb
 
@@ -83,7 +87,7 @@ theorem dropWhile_noNl {body : Bytes} (h : NoNl body) (r : Bytes) (hb : body ≠
     simp [this]
 
 /-- trimming a piece leaves its body -/
-theorem trimNlCr_piece (pre body suf : Bytes) (hpre : pre = [] ∨ pre = [0x0A]) (hbody : NoNl body)
+theorem trimNlCr_piece_lf (pre body suf : Bytes) (hpre : pre = [] ∨ pre = [0x0A]) (hbody : NoNl body)
     (hsuf : suf = [] ∨ ∃ t, suf = [t] ∧ isNlCr t = true) : trimNlCr (pre ++ body ++ suf) = body := by
   have hpre_all : ∀ b ∈ pre, isNlCr b = true := by
     rcases hpre with rfl | rfl
@@ -119,7 +123,7 @@ theorem linesCustom_noNl (c : Bytes) : ∀ l ∈ linesCustom c, NoNl l := by
   obtain ⟨p, hp, rfl⟩ := hl
   obtain ⟨pre, body, suf, rfl, h1, h2, h3⟩ :=
     splitCustomGo_shapes false [] c ⟨[], [], by simp, Or.inl rfl, NoNl.nil⟩ (by intro h; simp at h) p hp
-  rw [trimNlCr_piece pre body suf h1 h2 h3]
+  rw [trimNlCr_piece_lf pre body suf h1 h2 h3]
   exact h2
 
 /-- the rewriting loop emits, per line, the configured terminator followed by a segment without
